@@ -19,7 +19,7 @@ SDL = """
 type Query { ping(id: ID, n: Int, tags: [String!], f: Filter, e: Color, fs: [Filter!], camelCase: Int, in: String, _under: Int, opt: [[Int]], req: [Int], rec: Rec, d: Date, b: Boolean, ni: Int, mix: [Filter], grid: [[Filter!]], Query: String, Variables: Int, _response: String, DATA: Int, operationName: String): Int }
 enum Color { RED GREEN in }
 scalar Date
-input Filter { a: Int! = 3, b: [Filter!], c: Color = GREEN, camelCase: String, in: Int }
+input Filter { a: Int! = 3, b: [Filter!], c: Color = GREEN, camelCase: String, in: Int, _id: ID, _Rank: Int }
 input Rec { v: Int, next: Rec }
 """
 OPS = """
@@ -42,7 +42,9 @@ VALUES = {
     "f": [("byname", lambda p: p.Filter(a=1, camel_case="x") if hasattr(p.Filter, "model_fields") and "camel_case" in p.Filter.model_fields else p.Filter(a=1, camelCase="x"), {"a": 1, "camelCase": "x"}),
           ("byalias", lambda p: p.Filter.model_validate({"camelCase": "y", "in": 2}), {"camelCase": "y", "in": 2}),
           ("nested", lambda p: p.Filter(b=[p.Filter(c=p.Color.RED)], c=None), {"b": [{"c": "RED"}], "c": None}),
-          ("empty", lambda p: p.Filter(), {})],
+          ("empty", lambda p: p.Filter(), {}),
+          ("underscored", lambda p: p.Filter.model_validate({"_id": "7", "_Rank": 3}), {"_id": "7", "_Rank": 3}),
+          ("underscored_by_name", lambda p: p.Filter(**{[n for n, f in p.Filter.model_fields.items() if (f.alias or n) == "_id"][0]: "8"}), {"_id": "8"})],
     "e": [("m", lambda p: p.Color.GREEN, "GREEN"), ("kw", lambda p: getattr(p.Color, "in_"), "in")],
     "fs": [("l0", lambda p: [], []), ("l1", lambda p: [p.Filter(a=2)], [{"a": 2}])],
     "camelCase": [("i", lambda p: 1, 1)],
